@@ -297,6 +297,22 @@ def gen_case(rng):
     nvar = rng.weighted([(5, 1), (3, 2), (1, 3)])
     budget = [rng.range(3, 9)]
     variants = [g.expr(0, budget) for _ in range(nvar)]
+    if rng.chance(1, 3):
+        # a leading zero-or-more loop that ends in a command and is followed by something mandatory: after minimisation and
+        # renumbering the loop's command transitions lead back to the start state
+        tag = Leaf("lit", text=g.lit())
+        pa = Leaf("probe")
+        pa.k = g.probe_ref(id(pa))
+        body = Node("seq", [tag, pa]) if rng.chance(2, 3) else pa
+        alts = [body] + ([Leaf("lit", text=g.lit())] if rng.chance(1, 2) else [])
+        loop = Node("many", [Node("opt", [Node("alt", alts) if len(alts) > 1 else body])])
+        if rng.chance(1, 2):
+            pb = Leaf("probe")
+            pb.k = g.probe_ref(id(pb))
+            tail = pb
+        else:
+            tail = Leaf("lit", text=g.lit())
+        variants[0] = Node("seq", [loop, tail])
     root = variants[0] if nvar == 1 else Node("alt", variants)
     cmdtext = {k: command_text(k, info) for k, info in enumerate(g.probes)}
     name = rng.choice(["cmd", "tool", "my-cmd", "t_1"])
